@@ -44,8 +44,43 @@ compile when several packages are selected together because of feature unificati
 -p watchexec-filterer-globset --offline`, `cargo test -p watchexec-events --offline --features serde`); check what compiles on the unchanged HEAD first."""
 
 
+ROUND3 = """
+
+ADDITIONAL INSTRUCTIONS FOR THIS ROUND: other volunteers have already delivered SIX changes for this property (you cannot see them). They touched
+these places (file, and the function named in the diff hunk header where there was one):
+{touched}
+Do NOT put a change in any of the functions listed above; look for the parts of the code that the property ALSO depends on but that are less obvious:
+helpers and small accessor methods used by the main logic, trait impls, constructors and defaults, conversions, the command-line layer that feeds the
+library (crates/cli), the glue that wires components together, cleanup / drop / shutdown code, and code reached only on error or cancellation. A change
+in a different crate from the ones above is especially welcome when it genuinely breaks this property. Number your deliverables {pid}-7, {pid}-8, {pid}-9
+(directories /tmp/seeded/{pid}-7 etc.). Never use `git stash`. Never run two cargo commands at once. In each demo/README.md put the exact run command on
+its own line starting with `cargo test` and the destination path of each demo file as a full `crates/...` path. Some test targets only compile when
+several packages are selected together because of feature unification (e.g. `cargo test -p ignore-files -p watchexec-filterer-ignore
+-p watchexec-filterer-globset --offline`, `cargo test -p watchexec-events --offline --features serde`, `cargo test -p project-origins -p ignore-files --offline`);
+check what compiles on the unchanged HEAD first. If you cannot find three good ones outside the listed functions, deliver fewer."""
+
+
+def touched(pid):
+    import glob
+    import os
+    import re
+    out = set()
+    for d in sorted(glob.glob("/verif/seeded/%s-*" % pid)):
+        f = None
+        for line in open(os.path.join(d, "patch.diff"), errors="replace"):
+            if line.startswith("+++ b/"):
+                f = line[6:].strip()
+            m = re.match(r"^@@ .* @@\s*(.*)$", line)
+            if m and f:
+                fn = re.search(r"fn\s+(\w+)", m.group(1))
+                out.add((f, fn.group(1) if fn else (m.group(1)[:50] or "-")))
+    return "\n".join("  - %s : %s" % x for x in sorted(out))
+
+
 if __name__ == "__main__":
     out = prompt(sys.argv[1])
     if len(sys.argv) > 2 and sys.argv[2] == "2":
         out += ROUND2.format(pid=sys.argv[1])
+    if len(sys.argv) > 2 and sys.argv[2] == "3":
+        out += ROUND3.format(pid=sys.argv[1], touched=touched(sys.argv[1]))
     print(out)
